@@ -531,3 +531,84 @@ func (em *emitter) pointerOfArray(expr ast.Expression) (ast.Expression, bool) {
 	}
 	return nil, false
 }
+
+// emitZeroValue emits the zero value of typ into the register reg.
+func (em *emitter) emitZeroValue(reg int8, typ reflect.Type) {
+	ti := &typeInfo{Type: typ, Properties: propertyHasValue}
+	switch k := typ.Kind(); {
+	case k == reflect.Bool, reflect.Int <= k && k <= reflect.Uintptr:
+		ti.value = int64(0)
+	case k == reflect.Float32, k == reflect.Float64:
+		ti.value = float64(0)
+	case k == reflect.String:
+		ti.value = ""
+	case k == reflect.Interface:
+		ti.value = nil
+	default:
+		ti.value = em.types.Zero(typ).Interface()
+	}
+	em.fb.enterStack()
+	em.emitValueNotPredefined(ti, reg, typ)
+	em.fb.exitStack()
+}
+
+// hasDeferStatement reports whether nodes contain, outside function
+// literals, a defer statement.
+func hasDeferStatement(nodes []ast.Node) bool {
+	for _, node := range nodes {
+		switch node := node.(type) {
+		case *ast.Defer:
+			return true
+		case *ast.Block:
+			if hasDeferStatement(node.Nodes) {
+				return true
+			}
+		case *ast.Statements:
+			if hasDeferStatement(node.Nodes) {
+				return true
+			}
+		case *ast.If:
+			if node.Then != nil && hasDeferStatement(node.Then.Nodes) {
+				return true
+			}
+			if node.Else != nil && hasDeferStatement([]ast.Node{node.Else}) {
+				return true
+			}
+		case *ast.For:
+			if hasDeferStatement(node.Body) {
+				return true
+			}
+		case *ast.ForRange:
+			if hasDeferStatement(node.Body) {
+				return true
+			}
+			if node.Else != nil && hasDeferStatement(node.Else.Nodes) {
+				return true
+			}
+		case *ast.Switch:
+			for _, c := range node.Cases {
+				if hasDeferStatement(c.Body) {
+					return true
+				}
+			}
+		case *ast.TypeSwitch:
+			for _, c := range node.Cases {
+				if hasDeferStatement(c.Body) {
+					return true
+				}
+			}
+		case *ast.Select:
+			for _, c := range node.Cases {
+				if hasDeferStatement(c.Body) {
+					return true
+				}
+			}
+		case *ast.Label:
+			if node.Statement != nil && hasDeferStatement([]ast.Node{node.Statement}) {
+				return true
+			}
+		}
+	}
+	return false
+}
+
